@@ -135,6 +135,9 @@ func (e *E2) key(f *FA, ins ssa.Instruction, what string) string {
 
 func (e *E2) goal(f *FA, ins ssa.Instruction, rule, what string, g LF, facts []Fact) bool {
 	ok, how := f.Prove(g, facts)
+	if !ok && ins.Block() != nil {
+		ok, how = f.ProveCases(g, facts, ins.Block())
+	}
 	o := Obligation{Rule: e.rule(rule), Key: e.key(f, ins, what), Pos: e.C.InstrPos(ins)}
 	if ok {
 		o.Verdict = Discharged
@@ -1184,6 +1187,38 @@ func (e *E2) variant(f *FA, li *loopInfo) (bool, string) {
 		ok := len(backIdx(p)) > 0
 		for _, i := range backIdx(p) {
 			b, isB := p.Edges[i].(*ssa.BinOp)
+			if isB && b.Op == token.ADD && b.X != ssa.Value(p) {
+				// the counter advanced through intermediate values: p = (p + 4) + n
+				rest, k, okA := addendsBeside(p.Edges[i], p)
+				if !okA || k < 0 {
+					ok = false
+					break
+				}
+				facts := f.FactsAt(li.header.Preds[i])
+				env := f.refine(facts)
+				sum := konst(k)
+				for _, r := range rest {
+					if dependsOnValue(r, p, 0) {
+						ok = false
+						break
+					}
+					lo, hi := f.bounds(f.LFOf(r), env)
+					if lo < 0 || hi > 1<<20 {
+						ok = false
+						break
+					}
+					sum = sum.add(f.LFOf(r), 1)
+				}
+				if !ok {
+					break
+				}
+				if pr, _ := f.Prove(sum.add(konst(1), -1), facts); !pr {
+					ok = false
+					reasons = append(reasons, fmt.Sprintf("T3 on %s: cannot prove the step %s >= 1 on the back edge", p.Name(), f.Show(sum)))
+					break
+				}
+				continue
+			}
 			if !isB || b.Op != token.ADD || b.X != ssa.Value(p) {
 				ok = false
 				break
